@@ -71,6 +71,9 @@ type Trigger struct {
 	// identifier - the node whose successor has the smaller identifier, i.e. the pair that takes its two
 	// membership locks in the other order
 	WhenTop bool `json:"when_top,omitempty"`
+	// AtStart: the trigger fires when the handler of the RPC starts (the change it belongs to is then in
+	// progress on the callee) instead of when it has answered
+	AtStart bool `json:"at_start,omitempty"`
 }
 
 type SchedSpec struct {
@@ -390,7 +393,13 @@ func GenPlan(prop string, seed uint64, tier string) *Plan {
 				Kind:     pick(r, "leave", "leave", "join-before"),
 				Delay:    pick(r, 0, 0, time.Duration(r.Int63n(int64(20*time.Millisecond))), time.Duration(r.Int63n(int64(p.Stab)))),
 				Spare:    1 + r.Uint64()%1000,
+				AtStart:  r.Chance(0.3),
 			})
+		}
+		if r.Chance(0.3) {
+			// a node starts to leave while it is in the middle of serving a join or a leave of a neighbour
+			p.Triggers = append(p.Triggers, Trigger{OnMethod: pick(r, "RequestToJoin", "RequestToJoin", "RequestToLeave"), Nth: 1 + r.Intn(6), Target: "callee", Kind: "leave", AtStart: true,
+				Delay: pick(r, 0, time.Duration(r.Int63n(int64(3*time.Millisecond))), time.Duration(r.Int63n(int64(30*time.Millisecond))))})
 		}
 	}
 	if churn && r.Chance(0.35) {
